@@ -319,7 +319,7 @@ func cmdCheck(args []string) {
 	tb = append(tb, trustedFns...)
 	var assumedAt []string
 	for k := range v.assumedAt {
-		assumedAt = append(assumedAt, "environment precondition (assume-at): "+k)
+		assumedAt = append(assumedAt, "assumption left unchecked (assume-at clause, assumed ensures or assumed frame): "+k)
 	}
 	sort.Strings(assumedAt)
 	tb = append(tb, assumedAt...)
